@@ -50,7 +50,8 @@ type c12hpInitCase struct {
 	LateAt     int         `json:"late_inbound_direct_at,omitempty"`
 	Startup    int         `json:"startup_empty_polls,omitempty"` // listenAddrs() is empty for the first n polls of waitForPublicAddr
 	FailBlocks bool        `json:"failed_dial_blocks_until_deadline,omitempty"`
-	Notify     int         `json:"notify_conn,omitempty"` // 0: call Service.DirectConnect; 1..4: deliver Connected(conn of that kind) instead
+	Notify     int         `json:"notify_conn,omitempty"`   // 0: call Service.DirectConnect; 1..4: deliver Connected(conn of that kind) instead
+	LimFlags   int         `json:"limited_flags,omitempty"` // c12hpLim*: bit 0 relayed connections are NOT Limited, bit 1 direct connections report Limited
 }
 
 var c12hpNotifyNames = []string{"", "relayed-inbound", "relayed-outbound", "direct-inbound", "direct-outbound"}
@@ -70,8 +71,8 @@ func (c *c12hpInitCase) describe(w *c12hpWorld) string {
 	if c.Notify != 0 {
 		how = "Connected(" + c12hpNotifyNames[c.Notify] + ")"
 	}
-	return fmt.Sprintf("%s; peerstore=%v conns=%s directDial=%v remote-script=%v listenAddrs=%s filter=%s late-inbound-direct-at=%d startup-empty-polls=%d failed-dial-blocks=%v",
-		how, ps, c12hpConnsNames[c.Conns], c.DirectOK, sc, c12hpListenNames[c.Listen], c12hpFilterNames[c.Filter], c.LateAt, c.Startup, c.FailBlocks)
+	return fmt.Sprintf("%s; peerstore=%v conns=%s Stat().Limited=[%s] directDial=%v remote-script=%v listenAddrs=%s filter=%s late-inbound-direct-at=%d startup-empty-polls=%d failed-dial-blocks=%v",
+		how, ps, c12hpConnsNames[c.Conns], c12hpLimNames[c.LimFlags&3], c.DirectOK, sc, c12hpListenNames[c.Listen], c12hpFilterNames[c.Filter], c.LateAt, c.Startup, c.FailBlocks)
 }
 
 func (c *c12hpInitCase) onlyRelayed() bool {
@@ -181,6 +182,7 @@ func c12hpRunInit(t *testing.T, w *c12hpWorld, c *c12hpInitCase) (o c12hpInitObs
 			}
 		}
 		h.ps.AddAddrs(w.remote, psAddrs, peerstore.ConnectedAddrTTL)
+		h.limFlags = c.LimFlags & 3
 		c12hpApplyConns(h, c.Conns)
 		h.directOK = c.DirectOK
 		step := func(k int) c12hpStep {
@@ -545,16 +547,45 @@ func c12hpInitCases(thorough bool, yield func(c c12hpInitCase) bool) {
 			}
 		}
 	}
-	// the remote's own dial lands an inbound direct connection while our k-th punch fails
-	for _, late := range []int{1, 2, 3} {
-		for _, ps := range []int{0, 1, 16, 31} {
-			for _, conns := range []int{c12hpConnsRelayedIn, c12hpConnsRelayedOut} {
-				for _, sc := range all {
-					if len(sc) < late {
-						continue
+	// what Stat().Limited reports is a dimension of its own (relay without limits: relayed but not Limited; a
+	// direct connection that reports Limited), over every peerstore subset and every connection set. quick: the
+	// constant scripts for listen=public, filter=none; thorough: every sequence x every listen set. (The flags do
+	// not interact with the address lists, which is what listen set and filter vary.)
+	lfScripts, lfListen := scripts, []int{c12hpListenPublic}
+	if thorough {
+		lfScripts, lfListen = all, []int{c12hpListenPublic, c12hpListenRelayOnly, c12hpListenEmpty, c12hpListenMixed}
+	}
+	for lf := 1; lf < c12hpNLimFlags; lf++ {
+		for ps := 0; ps < 32; ps++ {
+			for conns := 0; conns < c12hpNConns; conns++ {
+				for _, dok := range []bool{false, true} {
+					for _, sc := range lfScripts {
+						for _, ls := range lfListen {
+							if !yield(c12hpInitCase{Space: "limited-flags", PsMask: ps, Conns: conns, DirectOK: dok, Script: sc, Listen: ls, Filter: c12hpFilterNil, LimFlags: lf}) {
+								return
+							}
+						}
 					}
-					if !yield(c12hpInitCase{Space: "late-inbound-direct", PsMask: ps, Conns: conns, Script: sc, Listen: c12hpListenPublic, LateAt: late}) {
-						return
+				}
+			}
+		}
+	}
+	// the remote's own dial lands an inbound direct connection while our k-th punch fails
+	for lf := 0; lf < c12hpNLimFlags; lf++ {
+		lateScripts := all
+		if lf != 0 && !thorough {
+			lateScripts = scripts
+		}
+		for _, late := range []int{1, 2, 3} {
+			for _, ps := range []int{0, 1, 16, 31} {
+				for _, conns := range []int{c12hpConnsRelayedIn, c12hpConnsRelayedOut} {
+					for _, sc := range lateScripts {
+						if len(sc) < late {
+							continue
+						}
+						if !yield(c12hpInitCase{Space: "late-inbound-direct", PsMask: ps, Conns: conns, Script: sc, Listen: c12hpListenPublic, LateAt: late, LimFlags: lf}) {
+							return
+						}
 					}
 				}
 			}
@@ -573,13 +604,15 @@ func c12hpInitCases(thorough bool, yield func(c c12hpInitCase) bool) {
 		}
 	}
 	// the automatic trigger: Connected notifications for every kind of new connection
-	for nk := 1; nk <= 4; nk++ {
-		for _, ps := range []int{0, 1, 16, 31} {
-			for _, pre := range []int{c12hpConnsNone, c12hpConnsRelayedOut, c12hpConnsDirectOnly} {
-				for _, dok := range []bool{false, true} {
-					for _, sc := range scripts {
-						if !yield(c12hpInitCase{Space: "notify", PsMask: ps, Conns: pre, DirectOK: dok, Script: sc, Listen: c12hpListenPublic, Notify: nk}) {
-							return
+	for lf := 0; lf < c12hpNLimFlags; lf++ {
+		for nk := 1; nk <= 4; nk++ {
+			for _, ps := range []int{0, 1, 16, 31} {
+				for _, pre := range []int{c12hpConnsNone, c12hpConnsRelayedOut, c12hpConnsDirectOnly} {
+					for _, dok := range []bool{false, true} {
+						for _, sc := range scripts {
+							if !yield(c12hpInitCase{Space: "notify", PsMask: ps, Conns: pre, DirectOK: dok, Script: sc, Listen: c12hpListenPublic, Notify: nk, LimFlags: lf}) {
+								return
+							}
 						}
 					}
 				}
@@ -595,6 +628,7 @@ func c12hpInitiator(t *testing.T) {
 	thorough := vrep.Thorough()
 	r.Bounds["peerstore"] = "all 32 subsets of {public tcp, public quic, private tcp, relay addr (private relay IP), relay addr (public relay IP)}"
 	r.Bounds["connections"] = strings.Join(c12hpConnsNames, " | ")
+	r.Bounds["stat_limited"] = strings.Join(c12hpLimNames, " | ") + " (applies to every connection of the execution, also those a dial creates)"
 	r.Bounds["direct_dial"] = "fails | succeeds"
 	r.Bounds["attempts"] = fmt.Sprintf("maxRetries=%d; Connect outcome per attempt fail|succeed", maxRetries)
 	r.Bounds["remote_answers"] = strings.Join(c12hpAnsNames, " | ")
@@ -607,7 +641,7 @@ func c12hpInitiator(t *testing.T) {
 	}
 	r.Bounds["listen_addrs"] = strings.Join(c12hpListenNames, " | ")
 	r.Bounds["addr_filter"] = strings.Join(c12hpFilterNames, " | ")
-	r.Bounds["sub_spaces"] = "main (full product) | quick only: all-scripts, blocking-dial (listen=public, filter=none) | late-inbound-direct (remote's dial lands during our failed attempt 1..3) | startup-poll (1,3,7 empty polls) | notify (Connected for 4 kinds of connection x 3 prior connection sets)"
+	r.Bounds["sub_spaces"] = "main (full product, natural Limited flags) | quick only: all-scripts, blocking-dial (listen=public, filter=none) | limited-flags (the 3 other settings of Stat().Limited x all peerstore subsets x all connection sets x direct dial; quick: constant scripts, listen=public, filter=none; thorough: every sequence x every listen set, filter=none) | late-inbound-direct (remote's dial lands during our failed attempt 1..3; all 4 Limited settings) | startup-poll (1,3,7 empty polls) | notify (Connected for 4 kinds of connection x 3 prior connection sets x 4 Limited settings)"
 	shard, nshards := vrep.Shard()
 	deadline := vrep.Deadline()
 	distinct := map[string]struct{}{}
